@@ -19,6 +19,8 @@ def kind_of(cs, m):
     else on such a literal gets its own label."""
     g, rd, what = cs['g'], m['rd'], m['what']
     if g in ('dec', 'unit') and what == 'value' and rd in ('DBL', 'FLT', 'NUM') and cs.get('ws'):
+        if m['dev'] and sum(1 for c in cs['lit'] if c not in (32, 9)) >= 64:
+            return 'decimal-whitespace-in-exponent-64-or-more-characters'        # D26: the literal without its blanks does not fit the conversion buffer
         return D5_KIND if m['dev'] else 'decimal-whitespace-in-exponent-unexplained-value'
     names = {('unit', 'value'): 'unit-multiplier', ('unit', 'unit'): 'unit-base-tag', ('special', 'tag'): 'special-tag',
              ('special', 'special'): 'special-not-flagged', ('nondec', 'value'): 'nondecimal-value', ('dec', 'value'): 'decimal-value'}
